@@ -414,16 +414,15 @@ def run(ctx):
         cases.append(case_line(obj["source"], obj.get("workers", 2), obj.get("sched", 0), 1))
         kinds.append("replay")
     else:
-        nsched = ctx.n(12, 100)
+        nsched = ctx.n(12, 50)
         for line in corpus("c14_programs.txt"):
             w, src = line.split(" ", 1)
             cases.append(case_line(src, int(w), rng.randrange(1 << 30), nsched))
             kinds.append("corpus")
-        for _ in range(ctx.n(240, 5000)):
+        for _ in range(ctx.n(240, 2000)):
             src = gen_program(rng)
             cases.append(case_line(src, rng.choice([1, 2, 2, 3]), rng.randrange(1 << 30), nsched))
             kinds.append("generated")
-    _, real = ctx.run_sharded(qo, cases, shards=None if len(cases) > 60 else 1)
     stats = dict(events={}, depths={}, transfers=0, transfers_of_absent_id=0, transfers_to_terminated=0, denied_uses=0,
                  transfers_by_non_owner=0, sends_with_unknown_sender=0,
                  executes=0, closes=0, async_effects=0, leaked_at_quiescence=0)
@@ -431,99 +430,106 @@ def run(ctx):
                 with_absent_id_use=0, with_double_close=0,
                 with_transfer_by_non_owner=0)
     ends, quanta, modes, workers_hist = {}, {}, {}, {}
-    runs, run_cases = [], []
-    for ci, (c, line) in enumerate(zip(cases, real)):
-        if not line.startswith("(runs"):
-            hist["compile_rejected"] += 1
-            if kinds[ci] != "generated" or line.startswith("(panic"):
-                ctx.violation({"kind": "correspondence-broken", "what": "program did not compile/run in the harness", "case": c, "impl": line}, no_input=True)
-            continue
-        hist["histories"] += 1
-        for r in sexpr.parse(line)[1:]:
-            runs.append(r)
-            run_cases.append(ci)
-    _, model = ctx.run_sharded(drv, [dump(r) for r in runs])
     disagreements = 0
     reported = {}
     nontrivial = set()
     samples = []
     per_case_flags = {}
-    for r, m, ci in zip(runs, model, run_cases):
-        flags = per_case_flags.setdefault(ci, set())
-        end = dump(section(r, "end")[0]) if section(r, "end") else "?"
-        ends[end.split(" ")[0].strip("()")] = ends.get(end.split(" ")[0].strip("()"), 0) + 1
-        q = section(r, "quantum")
-        if q:
-            quanta[q[0]] = quanta.get(q[0], 0) + 1
-            modes[section(r, "mode")[0]] = modes.get(section(r, "mode")[0], 0) + 1
-        src = sexpr.parse(cases[ci])
-        wk = section(src, "workers")[0]
-        workers_hist[wk] = workers_hist.get(wk, 0) + 1
-        replay_obj = {"source": section(src, "src")[0], "workers": int(wk), "sched": int(section(r, "sched")[0])}
-        # ---- model vs real, step by step
-        steps = section(r, "steps")
-        bad = None
-        try:
-            mm = sexpr.parse(m)
-            msteps = section(mm, "steps")
-            if mm[0] != "model" or len(msteps) != len(steps):
-                bad = "model output shape"
-            else:
-                for i, (a, b) in enumerate(zip(steps, msteps)):
-                    if a[0] == "term":
-                        if a != b:
-                            bad = "step %d" % i
-                    elif a[1] != b[1] or norm_calls(a[2][1:]) != norm_calls(b[2][1:]) or a[3] != b[3]:
-                        bad = "step %d: real %s / model %s" % (i, dump(a), dump(b))
-                    if bad:
-                        break
-                if not bad and section(["x"] + section(r, "final"), "own") != section(["x"] + section(mm, "final"), "own"):
-                    bad = "final ownership map"
-        except Exception as e:  # unparsable driver output
-            bad = "model output unparsable: %s" % e
-        # ---- the property on the real log
-        st_before = dict(stats)
-        local = dict(stats, unawaited_owner=False, mailbox_leftover=False)
-        problems, classes, f10 = oracle(r, local)
-        # the checker's class signatures must be the Coq monitors' (res/Own.v KnownF47/F48/F49, f10_scan)
-        if not bad:
+    total_runs = 0
+    BATCH = 250     # programs per batch (bounds memory in the thorough tier)
+    for b0 in range(0, len(cases), BATCH):
+        batch = cases[b0:b0 + BATCH]
+        _, real = ctx.run_sharded(qo, batch, shards=None if len(batch) > 60 else 1)
+        runs, run_cases = [], []
+        for k, (c, line) in enumerate(zip(batch, real)):
+            ci = b0 + k
+            if not line.startswith("(runs"):
+                hist["compile_rejected"] += 1
+                if kinds[ci] != "generated" or line.startswith("(panic"):
+                    ctx.violation({"kind": "correspondence-broken", "what": "program did not compile/run in the harness", "case": c, "impl": line}, no_input=True)
+                continue
+            hist["histories"] += 1
+            for r in sexpr.parse(line)[1:]:
+                runs.append(r)
+                run_cases.append(ci)
+        _, model = ctx.run_sharded(drv, [dump(r) for r in runs])
+        total_runs += len(runs)
+        for r, m, ci in zip(runs, model, run_cases):
+            flags = per_case_flags.setdefault(ci, set())
+            end = dump(section(r, "end")[0]) if section(r, "end") else "?"
+            ends[end.split(" ")[0].strip("()")] = ends.get(end.split(" ")[0].strip("()"), 0) + 1
+            q = section(r, "quantum")
+            if q:
+                quanta[q[0]] = quanta.get(q[0], 0) + 1
+                modes[section(r, "mode")[0]] = modes.get(section(r, "mode")[0], 0) + 1
+            src = sexpr.parse(cases[ci])
+            wk = section(src, "workers")[0]
+            workers_hist[wk] = workers_hist.get(wk, 0) + 1
+            replay_obj = {"source": section(src, "src")[0], "workers": int(wk), "sched": int(section(r, "sched")[0])}
+            # ---- model vs real, step by step
+            steps = section(r, "steps")
+            bad = None
             try:
-                mc = {k: v == "true" for k, v in section(mm, "classes")}
-                mf = {(x[0], x[1]): (x[2] == "true", x[3] == "true") for x in section(mm, "f10")}
-                if any(mc[k] != classes[k] for k in classes) or not mc["fresh"] or mf != f10:
-                    bad = "known-class monitors: checker %s %s / Coq %s %s" % (classes, f10, mc, mf)
-            except Exception as e:
-                bad = "model classes unparsable: %s" % e
-        for k in stats:
-            stats[k] = local[k]
-        if local["unawaited_owner"]:
-            flags.add("unawaited")
-        if local["mailbox_leftover"]:
-            flags.add("mailbox")
-        if local["denied_uses"] > st_before["denied_uses"]:
-            flags.add("denied")
-        for cls, detail, key in problems:
-            if cls == "absent-id-reached-backend":
-                flags.add("absent")
-            if cls == "closed-twice":
-                flags.add("double")
-            if cls == "transfer-by-non-owner":
-                flags.add("foreign")
-            n = reported.get(cls, 0)
-            reported[cls] = n + 1
-            if n < 3:
-                ctx.violation(dict(replay_obj, kind="impl-violation", oracle=cls, what=detail, run=dump(r)), finding_key=key)
-        if bad:
-            disagreements += 1
-            if disagreements <= 3 and not any(k is None for _, _, k in problems):
-                ctx.violation(dict(replay_obj, kind="correspondence-broken",
-                                   correspondence="res/Own.v step vs environment.rs handle_event (ownership map and backend calls after every event)",
-                                   what=bad, impl=dump(r), model=m), no_input=True)
-        text = dump(steps)
-        if local["transfers"] > st_before["transfers"] and (local["closes"] > st_before["closes"] or "denied" in flags or local["leaked_at_quiescence"] > st_before["leaked_at_quiescence"]):
-            nontrivial.add(hashlib.sha1(text.encode()).hexdigest())
-        if len(samples) < 3 and len(steps) > 8:
-            samples.append({"source": replay_obj["source"], "workers": replay_obj["workers"], "real_run": dump(r)[:3000], "model": m[:3000]})
+                mm = sexpr.parse(m)
+                msteps = section(mm, "steps")
+                if mm[0] != "model" or len(msteps) != len(steps):
+                    bad = "model output shape"
+                else:
+                    for i, (a, b) in enumerate(zip(steps, msteps)):
+                        if a[0] == "term":
+                            if a != b:
+                                bad = "step %d" % i
+                        elif a[1] != b[1] or norm_calls(a[2][1:]) != norm_calls(b[2][1:]) or a[3] != b[3]:
+                            bad = "step %d: real %s / model %s" % (i, dump(a), dump(b))
+                        if bad:
+                            break
+                    if not bad and section(["x"] + section(r, "final"), "own") != section(["x"] + section(mm, "final"), "own"):
+                        bad = "final ownership map"
+            except Exception as e:  # unparsable driver output
+                bad = "model output unparsable: %s" % e
+            # ---- the property on the real log
+            st_before = dict(stats)
+            local = dict(stats, unawaited_owner=False, mailbox_leftover=False)
+            problems, classes, f10 = oracle(r, local)
+            # the checker's class signatures must be the Coq monitors' (res/Own.v KnownF47/F48/F49, f10_scan)
+            if not bad:
+                try:
+                    mc = {k: v == "true" for k, v in section(mm, "classes")}
+                    mf = {(x[0], x[1]): (x[2] == "true", x[3] == "true") for x in section(mm, "f10")}
+                    if any(mc[k] != classes[k] for k in classes) or not mc["fresh"] or mf != f10:
+                        bad = "known-class monitors: checker %s %s / Coq %s %s" % (classes, f10, mc, mf)
+                except Exception as e:
+                    bad = "model classes unparsable: %s" % e
+            for k in stats:
+                stats[k] = local[k]
+            if local["unawaited_owner"]:
+                flags.add("unawaited")
+            if local["mailbox_leftover"]:
+                flags.add("mailbox")
+            if local["denied_uses"] > st_before["denied_uses"]:
+                flags.add("denied")
+            for cls, detail, key in problems:
+                if cls == "absent-id-reached-backend":
+                    flags.add("absent")
+                if cls == "closed-twice":
+                    flags.add("double")
+                if cls == "transfer-by-non-owner":
+                    flags.add("foreign")
+                n = reported.get(cls, 0)
+                reported[cls] = n + 1
+                if n < 3:
+                    ctx.violation(dict(replay_obj, kind="impl-violation", oracle=cls, what=detail, run=dump(r)), finding_key=key)
+            if bad:
+                disagreements += 1
+                if disagreements <= 3 and not any(k is None for _, _, k in problems):
+                    ctx.violation(dict(replay_obj, kind="correspondence-broken",
+                                       correspondence="res/Own.v step vs environment.rs handle_event (ownership map and backend calls after every event)",
+                                       what=bad, impl=dump(r), model=m), no_input=True)
+            text = dump(steps)
+            if local["transfers"] > st_before["transfers"] and (local["closes"] > st_before["closes"] or "denied" in flags or local["leaked_at_quiescence"] > st_before["leaked_at_quiescence"]):
+                nontrivial.add(hashlib.sha1(text.encode()).hexdigest())
+            if len(samples) < 3 and len(steps) > 8:
+                samples.append({"source": replay_obj["source"], "workers": replay_obj["workers"], "real_run": dump(r)[:3000], "model": m[:3000]})
     for ci, flags in per_case_flags.items():
         hist["with_unawaited_owner"] += "unawaited" in flags
         hist["with_mailbox_leftover"] += "mailbox" in flags
@@ -535,14 +541,14 @@ def run(ctx):
         print("replay: %s" % real)
     steps_total = sum(stats["events"].values())
     ctx.cov.update({
-        "evaluations": 2 * len(runs),
+        "evaluations": 2 * total_runs,
         "distinct_nontrivial": len(nontrivial),
         "rule": "a run (program x schedule) is non-trivial when its real trace contains an ownership transfer carrying a resource AND (a cleanup that closes a resource OR a use denied to a non-owner OR a resource left with a terminated owner at quiescence); distinct by SHA-1 of the real step sequence",
         "samples": samples,
-        "traces_validated_against_impl": len(runs),
+        "traces_validated_against_impl": total_runs,
         "disagreements_checked": disagreements,
         "histories": hist,
-        "schedules_run": len(runs),
+        "schedules_run": total_runs,
         "environment_steps_compared": steps_total,
         "events_by_kind": stats["events"],
         "nesting_depth_of_transferred_handles": stats["depths"],
@@ -552,5 +558,5 @@ def run(ctx):
     })
     if not ok:
         ctx.violation({"kind": "theorem-broken", "theorem": getattr(ctx, "broken_theorem", "?"),
-                       "searched": "%d runs on the real code, %d model disagreements, oracle classes %s" % (len(runs), disagreements, reported)},
+                       "searched": "%d runs on the real code, %d model disagreements, oracle classes %s" % (total_runs, disagreements, reported)},
                       no_input=not any(True for _ in ctx.violations))
